@@ -613,7 +613,33 @@ def geod_model(ex, cons, calls, max_rounds=25):
     return z3.unknown, None
 
 
-def run_job(job, seed=0, replay_dir=None):
+def cvc5_check(smt2, timeout_ms=8000):
+    """second opinion on one query: 'unsat' / 'sat' / 'unknown' / None (cvc5 not installed)"""
+    try:
+        import cvc5
+    except Exception:
+        return None
+    try:
+        slv = cvc5.Solver()
+        slv.setOption("tlimit-per", str(timeout_ms))
+        slv.setLogic("ALL")
+        p = cvc5.InputParser(slv)
+        p.setStringInput(cvc5.InputLanguage.SMT_LIB_2_6, smt2, "q")
+        sm = p.getSymbolManager()
+        res = "unknown"
+        while True:
+            cmd = p.nextCommand()
+            if cmd.isNull():
+                break
+            out = str(cmd.invoke(slv, sm)).strip()
+            if out in ("sat", "unsat", "unknown"):
+                res = out
+        return res
+    except Exception as e:
+        return "unknown"
+
+
+def run_job(job, seed=0, replay_dir=None, cross_check=0):
     """Run one job; returns a JSON-able result dict."""
     t0 = time.time()
     res = {
@@ -754,6 +780,15 @@ def run_job(job, seed=0, replay_dir=None):
                 r = ex.check(*pc, *axioms, *known_excl, neg)
                 if r == z3.unsat:
                     res["discharged"] += 1
+                    if cross_check and res.get("cvc5_queries", 0) < cross_check:
+                        s2 = z3.Solver()
+                        s2.add(*base, *pc, *axioms, *known_excl, neg)
+                        verdict = cvc5_check(s2.to_smt2())
+                        if verdict is not None:
+                            res["cvc5_queries"] = res.get("cvc5_queries", 0) + 1
+                            res["cvc5_" + verdict] = res.get("cvc5_" + verdict, 0) + 1
+                            if verdict == "sat":
+                                res["inconclusive"].append(f"path {res['paths']}: obligation '{label}': z3 says unsat, cvc5 says sat")
                     continue
                 if r != z3.sat:
                     res["inconclusive"].append(f"path {res['paths']}: obligation '{label}': solver {r}")
